@@ -55,12 +55,12 @@ def failing_run(ctx, ws):
     ctx.event("preceding_failed_runs" if r[0] == "exc" else "preceding_runs_did_not_fail")
 
 
-def judge_listing(ctx, ws, text, origin, elf_bytes=None, force_reuse=False, level=None):
+def judge_listing(ctx, ws, text, origin, elf_bytes=None, force_reuse=False, level=None, force_range=None):
     # ambient state: the level --info / --debug give jasm's logger never changes what is parsed
     level = level or ctx.rng.choice(["warning"] * 6 + ["info"] + ["debug"] * 3)
     ctx.event("listings_judged_with_log_level_" + level)
     with real.log_level(level):
-        return _judge_listing(ctx, ws, text, origin + ("" if level == "warning" else f" [logger at {level}]"), elf_bytes, force_reuse)
+        return _judge_listing(ctx, ws, text, origin + ("" if level == "warning" else f" [logger at {level}]"), elf_bytes, force_reuse, force_range)
 
 
 def perturb_lines(rng, text):
@@ -81,7 +81,7 @@ def perturb_lines(rng, text):
     return "\n".join(out)
 
 
-def _judge_listing(ctx, ws, text, origin, elf_bytes=None, force_reuse=False):
+def _judge_listing(ctx, ws, text, origin, elf_bytes=None, force_reuse=False, force_range=None):
     if ctx.rng.random() < 0.3 and len(text) < 300000 and not origin.startswith("replay"):
         text = perturb_lines(ctx.rng, text)
         ctx.event("listings_with_padded_or_very_long_rows")
@@ -136,7 +136,7 @@ def _judge_listing(ctx, ws, text, origin, elf_bytes=None, force_reuse=False):
                              f"a fresh object builds {r[1].count('|')} ({got[:80]!r} vs {r[1][:80]!r})")
             return
     # the same listing under a rule that configures valid_addr_range (adds an observer): lines -> records must be unchanged
-    lo, hi = ctx.rng.choice([("0", "ffffffffffffffff"), ("0x400000", "0x4fffff"), ("1000", "1000")])
+    lo, hi = force_range or ctx.rng.choice([("0", "ffffffffffffffff"), ("0x400000", "0x4fffff"), ("1000", "1000")])
     r2 = objd.real_stream(ws, p, rule_text=f"config:\n  valid_addr_range:\n    min: '{lo}'\n    max: '{hi}'\npattern:\n  - zzzzzz\n")
     ctx.ran()
     if r2[0] != "ok":
@@ -197,10 +197,52 @@ def count_boundary_stratum(ctx, ws, n):
         _judge_listing(ctx, ws, "\n".join(lines) + "\n", f"count-boundary/{count}")
 
 
+def pipe_stratum(ctx, ws, n):
+    """The same text handed over through a named pipe and through /dev/stdin-style descriptors (`jasm -s <(objdump -d x)`): the
+    stream is what the regular file gives, instruction for instruction."""
+    from jv import listing as L
+    for k in range(n):
+        pipe_compare(ctx, ws, L.render(L.gen_listing(ctx.rng, 12 + 20 * k), ctx.rng))
+
+
+def pipe_compare(ctx, ws, text):
+    import threading
+    if True:
+        ref = objd.real_stream(ws, ws.write("pipe_ref.s", text))
+        fifo = ws.path("in.fifo")
+        if os.path.exists(fifo):
+            os.remove(fifo)
+        os.mkfifo(fifo)
+
+        def feed():
+            with open(fifo, "w") as fh:
+                fh.write(text)
+        t = threading.Thread(target=feed, daemon=True)
+        t.start()
+        got = objd.real_stream(ws, fifo)
+        t.join(timeout=10)
+        if t.is_alive():
+            # nobody opened the pipe for reading: release the writer
+            try:
+                fd = os.open(fifo, os.O_RDONLY | os.O_NONBLOCK)
+                os.close(fd)
+            except OSError:
+                pass
+            t.join(timeout=5)
+        ctx.ran(2)
+        ctx.event("listings_read_through_a_named_pipe")
+        ctx.case(("pipe", text), True, stratum="listing through a pipe")
+        if ref[0] == "ok" and (got[0] != "ok" or got[1] != ref[1]):
+            ctx.disagreement({"origin": "pipe", "listing": text, "pipe": True},
+                             f"listing read through a named pipe: stream has {got[1].count('|') if got[0] == 'ok' else got[1:]} records, the regular file gives {ref[1].count('|')}")
+
+
 def run_shard(ctx):
     ws = real.Workspace()
     block_boundary_stratum(ctx, ws, ctx.share(24, 240))
     count_boundary_stratum(ctx, ws, ctx.share(3, 48))
+    if ctx.shard == 1 % ctx.nshards:
+        pipe_stratum(ctx, ws, 2 if ctx.tier == "quick" else 12)
     if ctx.shard == 0:
         for f in objd.fixtures():
             with open(f, encoding="utf-8", errors="replace") as fh:
@@ -229,4 +271,6 @@ def run_shard(ctx):
 
 def replay(ctx, case):
     ws = real.Workspace()
-    judge_listing(ctx, ws, case["listing"], case.get("origin", "replay"), force_reuse=bool(case.get("reuse")))
+    if case.get("pipe"):
+        return pipe_compare(ctx, ws, case["listing"])
+    judge_listing(ctx, ws, case["listing"], case.get("origin", "replay"), force_reuse=bool(case.get("reuse")), force_range=tuple(case["range"]) if case.get("range") else None)
